@@ -344,6 +344,7 @@ def run_shard(prop, run, binpath, tier, seed, shard_i, shard_n, logdir, extra_ar
     args = list(run.get("args", {}).get(tier, [])) + list(extra_args or [])
     start = 0
     segment = 0
+    cpu_deaths = 0
     max_restarts = run.get("max_restarts", 60)
     timeout = run.get("timeout", {}).get(tier, 3600 if tier == "quick" else 4 * 3600)
     tag = run["bin"] + (("-" + run["logtag"]) if run.get("logtag") else "")
@@ -390,7 +391,10 @@ def run_shard(prop, run, binpath, tier, seed, shard_i, shard_n, logdir, extra_ar
                 res.violcount[k] = res.violcount.get(k, 0) + int(n)
             elif ln.startswith("@@STAT "):
                 _, k, n = ln.split(" ", 2)
-                res.stats[k] = res.stats.get(k, 0) + int(n)
+                if k.startswith("max_"):
+                    res.stats[k] = max(res.stats.get(k, 0), int(n))
+                else:
+                    res.stats[k] = res.stats.get(k, 0) + int(n)
             elif ln.startswith("@@SAMPLE "):
                 if len(res.samples) < 4:
                     res.samples.append(ln[9:])
@@ -414,6 +418,13 @@ def run_shard(prop, run, binpath, tier, seed, shard_i, shard_n, logdir, extra_ar
         res.deaths.append((last_case[0], last_case[1], last_case[2], kind, frame, excerpt, log))
         if only is not None:
             break
+        if kind == "monitor.case-cpu-budget":
+            # a non-terminating case costs its whole CPU budget: after the second one in a shard the rest of the
+            # shard is not run (the run is a violation anyway; the shard counts as not completed)
+            cpu_deaths += 1
+            if cpu_deaths >= 2:
+                res.masked = True
+                break
         segment += 1
         start = last_case[0] + 1
         if segment > max_restarts:
@@ -578,6 +589,10 @@ def check(prop, tier, seed, replay=None):
         for k, v in r.classes.items():
             classes[k] = classes.get(k, 0) + v
         for k, v in r.stats.items():
+            if k.startswith("max_"):    # maxima (e.g. CPU time of the most expensive case), not sums
+                stats[run["bin"] + "." + k] = max(stats.get(run["bin"] + "." + k, 0), v)
+                stats[k] = max(stats.get(k, 0), v)
+                continue
             stats[run["bin"] + "." + k] = stats.get(run["bin"] + "." + k, 0) + v
             if k == "distinct" and run.get("secondary"):
                 continue    # the same enumeration repeated under another build adds no distinct cases
